@@ -478,8 +478,15 @@ func runHistoryCase(ctx *Ctx, m *common.Model, c KCase, idx int) *common.Violati
 		ctx.Res.Hist("op_" + op.K)
 	}
 	implAll := strings.Join(impl, " | ") + " | late=" + run.Late
+	sibling := ""
 	if cl := historyMonitor(c, run); cl != "" {
-		return &common.Violation{Kind: "monitor", Clause: cl, Input: c, Impl: implAll, Case: idx}
+		if strings.HasPrefix(cl, ctx.Prop+":") {
+			return &common.Violation{Kind: "monitor", Clause: cl, Input: c, Impl: implAll, Case: idx}
+		}
+		// the family shares one monitor: a failed clause of a sibling property is not a monitor
+		// violation of this one (its own check reports it); it is kept as a note
+		sibling = "on this history a clause of a sibling property fails: " + cl
+		ctx.Res.Hist("sibling_clause_failed")
 	}
 	rep, err := m.Ask(clientModelLines(c, run))
 	if err != nil {
@@ -508,12 +515,12 @@ func runHistoryCase(ctx *Ctx, m *common.Model, c KCase, idx int) *common.Violati
 		}
 		if a != b {
 			return &common.Violation{Kind: "correspondence", Clause: fmt.Sprintf("Model.Client.step disagrees with AuditClient at op %d (%s)", i, c.Ops[i].K),
-				Input: c, Impl: implAll, Model: modelAll, Case: idx}
+				Input: c, Impl: implAll, Model: modelAll, Case: idx, Note: sibling}
 		}
 	}
 	if late != run.Late {
 		return &common.Violation{Kind: "correspondence", Clause: "byte slices returned earlier, read after the history: model and implementation differ (aliasing of the receive buffer)",
-			Input: c, Impl: implAll, Model: modelAll, Case: idx}
+			Input: c, Impl: implAll, Model: modelAll, Case: idx, Note: sibling}
 	}
 	return nil
 }
